@@ -379,6 +379,7 @@ func runDesigns(run *vc.Run, c *rtCheck, dir string, specs []*spec.Spec, mk func
 			}
 			conclusive++
 			countUnions(run, ex) // union.go
+			countMultipart(run, d.Spec, ex) // multipart.go
 			for _, f := range v.Findings {
 				if verbose {
 					fmt.Printf("FINDING %s: %s\n", f.Key, f.What)
